@@ -193,7 +193,7 @@ class Generator:
                 if not c2:
                     raise GenError(f'lost-anchor: upto-stmt "{rest[1]}" after "{u.sel[0]}" in {u.fnpath}')
                 span = [st['span'][0], c2[0]['span'][0]]
-                if any(inside(r, span) for r in fn['returns'] + fn['tries']) and not (st['depth'] == 1 and 'same-return-type' in u.opts):
+                if any(inside(r, span) for r in fn['returns'] + fn['tries']) and 'same-return-type' not in u.opts:
                     raise GenError(f'unsupported: bounded stmts fragment of {u.fnpath} contains return/?')
             # include a trailing `;` that syn leaves outside a `let` stmt span? (syn includes it) – nothing to do
             wrap = True
